@@ -23,6 +23,7 @@ from ._introspect import get_field_tag
 from ._introspect import get_schema_field_type
 from ._introspect import is_optional
 from ._shared import NullableEntityMarker
+from ._shared import types_without_null_form
 from .writers import Writable
 from .writers import Writer
 from .writers import compact_array_writer
@@ -116,8 +117,15 @@ def get_field_writer(
     # can have optional fields with in-transit value types that cannot represent None.
     # To be able to match an optional tagged field to a writer that cannot accept None,
     # we hard-code all tagged fields as not optional here.
-    optional = False if is_tag else is_optional(field)
+    optional = is_optional(field)
     field_class = classify_field(field)
+    if is_tag and optional:
+        # A null value that is not the default must still be written, which is only
+        # possible for types that have a wire-level null form.
+        optional = (
+            isinstance(field_class, PrimitiveField)
+            and get_schema_field_type(field) not in types_without_null_form
+        )
 
     match field_class:
         case PrimitiveField() | PrimitiveTupleField():
